@@ -196,6 +196,9 @@ func (g *Gen) wrkHeight(last uint64) uint64 {
 		if last < ^uint64(0)-1 && r.Chance(30) {
 			return ^uint64(0) - 1
 		}
+		if last < ^uint64(0) && r.Chance(30) {
+			return ^uint64(0) // the largest height: everything afterwards must be rejected
+		}
 		return last + 3
 	}
 }
@@ -227,7 +230,7 @@ func (g *Gen) BeaconRecordMsg(id uint64, owner lab.Acct) *beacontypes.MsgRecordB
 	g.tsid++
 	st := uint64(g.E.L.Time.Unix()) - uint64(g.E.R.Intn(1000))
 	if g.E.R.Chance(10) {
-		st = g.E.R.PickU64([]uint64{1, 1 << 32, 1<<63 + 7, ^uint64(0)})
+		st = g.E.R.PickU64([]uint64{0, 1, 1 << 32, 1<<63 + 7, ^uint64(0)}) // 0 must be rejected (it would be replaced by the wall clock)
 	}
 	return &beacontypes.MsgRecordBeaconTimestamp{BeaconId: id, Hash: g.hash(g.hashLen()), SubmitTime: st, Owner: g.spell(owner, 8)}
 }
